@@ -165,3 +165,75 @@ package bbolt
 //@   ensures [runlock] db.mmaplock.rcount == old(db.mmaplock.rcount) - 1
 //@   ensures [metalock] db.metalock.held == old(db.metalock.held)
 //@   ensures [unregister] db.freelist != nil ==> calls("freelist.Interface.RemoveReadonlyTXID", db.freelist) == old(calls("freelist.Interface.RemoveReadonlyTXID", db.freelist)) + 1
+
+//@ func (*DB).page
+//@   trusted
+//@   ensures result != nil
+//@   modifies nothing
+
+//@ func (*DB).freepages
+//@   opaque
+//@   modifies nothing
+
+//@ func (*Bucket).rebalance
+//@   opaque
+//@   ensures b.tx.db == old(b.tx.db) && b.tx.meta == old(b.tx.meta) && b.tx.writable == old(b.tx.writable) && b.tx.managed == old(b.tx.managed)
+//@   ensures b.tx.db.rwlock.held == old(b.tx.db.rwlock.held) && unsynced == old(unsynced) && nwrites == old(nwrites)
+
+//@ func (*Bucket).spill
+//@   opaque
+//@   returns (err)
+//@   ensures b.tx.db == old(b.tx.db) && b.tx.meta == old(b.tx.meta) && b.tx.writable == old(b.tx.writable) && b.tx.managed == old(b.tx.managed)
+//@   ensures b.tx.db.rwlock.held == old(b.tx.db.rwlock.held) && unsynced == old(unsynced) && nwrites == old(nwrites)
+//@   ensures b.tx.meta.pgid >= old(b.tx.meta.pgid) && b.tx.meta.txid == old(b.tx.meta.txid)
+//@   ensures b.tx.db.MaxSize > 0 && b.tx.meta.pgid != old(b.tx.meta.pgid) ==> (b.tx.meta.pgid + 1) * b.tx.db.pageSize <= b.tx.db.MaxSize
+
+//@ func (*Tx).rollback
+//@   props C08 C03 C07
+//@   requires tx.db != nil && tx.writable ==> tx.db.rwlock.held && tx.meta != nil && tx.db.freelist != nil
+//@   requires tx.db != nil && tx.writable && tx.db.data != nil ==> tx.db.meta0 != nil && tx.db.meta1 != nil && (metavalid(tx.db.meta0) || metavalid(tx.db.meta1))
+//@   requires tx.db != nil && !tx.writable ==> tx.db.mmaplock.rcount >= 1 && tx.meta != nil && !tx.db.metalock.held
+//@   ensures [closed] tx.db == nil
+//@   ensures [unlocked] old(tx.db) != nil && old(tx.writable) ==> !old(tx.db).rwlock.held && old(tx.db).rwtx == nil
+//@   ensures [flrollback] old(tx.db) != nil && old(tx.writable) ==> lastrollback == old(tx.meta.txid) && calls("freelist.Interface.Rollback", old(tx.db.freelist)) == old(calls("freelist.Interface.Rollback", tx.db.freelist)) + 1
+//@   ensures [reload] old(tx.db) != nil && old(tx.writable) && old(tx.db.data) != nil ==> calls("freelist.Interface.Reload", old(tx.db.freelist)) + calls("freelist.Interface.NoSyncReload", old(tx.db.freelist)) == old(calls("freelist.Interface.Reload", tx.db.freelist) + calls("freelist.Interface.NoSyncReload", tx.db.freelist)) + 1
+//@   ensures [disk] unsynced == old(unsynced) && nwrites == old(nwrites)
+
+//@ func (*Tx).nonPhysicalRollback
+//@   props C08 C03
+//@   requires tx.db != nil && tx.writable ==> tx.db.rwlock.held && tx.meta != nil && tx.db.freelist != nil
+//@   requires tx.db != nil && !tx.writable ==> tx.db.mmaplock.rcount >= 1 && tx.meta != nil && !tx.db.metalock.held
+//@   ensures [closed] tx.db == nil
+//@   ensures [unlocked] old(tx.db) != nil && old(tx.writable) ==> !old(tx.db).rwlock.held && old(tx.db).rwtx == nil
+//@   ensures [flrollback] old(tx.db) != nil && old(tx.writable) ==> lastrollback == old(tx.meta.txid) && calls("freelist.Interface.Rollback", old(tx.db.freelist)) == old(calls("freelist.Interface.Rollback", tx.db.freelist)) + 1
+//@   ensures [disk] unsynced == old(unsynced) && nwrites == old(nwrites)
+
+//@ func (*Tx).Rollback
+//@   props C08 C03
+//@   requires !tx.managed
+//@   requires tx.db != nil && tx.writable ==> tx.db.rwlock.held && tx.meta != nil && tx.db.freelist != nil
+//@   requires tx.db != nil && !tx.writable ==> tx.db.mmaplock.rcount >= 1 && tx.meta != nil && !tx.db.metalock.held
+//@   ensures [closedtx] old(tx.db) == nil ==> result == berrors.ErrTxClosed
+//@   ensures [ok] old(tx.db) != nil ==> result == nil && tx.db == nil
+//@   ensures [unlocked] old(tx.db) != nil && old(tx.writable) ==> !old(tx.db).rwlock.held && old(tx.db).rwtx == nil
+
+//@ func (*Tx).writeMeta
+//@   returns (err)
+//@   props C01 C06 C08 C03
+//@   requires tx.db != nil && tx.meta != nil && tx.db.pageSize >= 512 && tx.db.pageSize <= 16777216 && !tx.db.metalock.held
+//@   requires [ordered] tx.db.NoSync || unsynced == 0
+//@   panics when tx.meta.root.root >= tx.meta.pgid || (tx.meta.freelist >= tx.meta.pgid && tx.meta.freelist != common.PgidNoFreelist)
+//@   ensures [slot] nwrites == old(nwrites) + 1 && lastwriteoff == (tx.meta.txid % 2) * tx.db.pageSize && lastwritelen == tx.db.pageSize
+//@   ensures [durable] err == nil && !tx.db.NoSync ==> unsynced == 0
+//@   ensures [metalock] !tx.db.metalock.held
+//@   ensures [unchanged] tx.meta.txid == old(tx.meta.txid) && tx.meta.pgid == old(tx.meta.pgid) && tx.meta.freelist == old(tx.meta.freelist) && tx.meta.root.root == old(tx.meta.root.root)
+//@   ensures [valid] metavalid(tx.meta)
+
+//@ func (*Tx).commitFreelist
+//@   returns (err)
+//@   props C08 C07 C01
+//@   requires tx.db != nil && tx.writable && tx.meta != nil && tx.db.freelist != nil && tx.db.rwlock.held && tx.db.pageSize >= 512 && tx.db.pageSize <= 16777216
+//@   requires tx.db.data != nil ==> tx.db.meta0 != nil && tx.db.meta1 != nil && (metavalid(tx.db.meta0) || metavalid(tx.db.meta1))
+//@   ensures [rolledback] err != nil ==> tx.db == nil && calls("(*Tx).rollback", tx) == old(calls("(*Tx).rollback", tx)) + 1
+//@   ensures [ok] err == nil ==> tx.db == old(tx.db) && calls("(*Tx).rollback", tx) == old(calls("(*Tx).rollback", tx)) && tx.meta.freelist != common.PgidNoFreelist && calls("freelist.Interface.Write", tx.db.freelist) == old(calls("freelist.Interface.Write", tx.db.freelist)) + 1
+//@   ensures [disk] unsynced == old(unsynced) && nwrites == old(nwrites)
